@@ -386,3 +386,65 @@ def nontrivial(r):  # noqa: F811
 RULE += ("; 15% of the scenarios print the threading scheduler from inside callbacks while a batch is in flight (jobs that have just "
          "used their last attempt are still registered): the heading must report the number of registered jobs and the table "
          "must have one row for each of them")
+
+
+# ---- the same for the asyncio front end: coroutines print their scheduler while other jobs retire / get deleted
+from .. import impl_aio as _impl_aio  # noqa: E402
+from . import c18 as _c18  # noqa: E402
+
+_mix = {k: globals()[k] for k in ("scenarios", "runner", "specs", "classes", "nontrivial")}
+
+
+def _aio_print_stream(rng):
+    while True:
+        for scn in _c18.scenarios(rng, 8, "quick"):
+            n = 0
+            for o in scn["ops"]:
+                if o["op"] == "sch":
+                    for run in o.get("runs", []):
+                        if rng.random() < 0.6:
+                            run["acts"].insert(rng.randint(0, len(run["acts"])), ["st"])
+                            n += 1
+            if n:
+                scn["kind"] = "aio-print"
+                yield scn
+
+
+def scenarios(rng, n, tier):  # noqa: F811
+    st = _aio_print_stream(rng)
+    for scn in _mix["scenarios"](rng, n, tier):
+        yield next(st) if rng.random() < 0.1 else scn
+
+
+def runner(scn):  # noqa: F811
+    return _impl_aio.run_scenario(scn) if scn.get("kind") == "aio-print" else _mix["runner"](scn)
+
+
+project = _impl_aio.project
+
+
+def specs(r):  # noqa: F811
+    if r["scn"].get("kind") != "aio-print":
+        return _mix["specs"](r)
+    qs = []
+    for i, ob in enumerate(r["obs"]):
+        for (t, k, heading, rows, reg) in ob.get("prints", []):
+            if heading == -1:
+                qs.append(("spec eq 0 1", {"what": "str() from a coroutine raised", "op": i, "key": k, "error": reg}))
+            else:
+                qs.append((f"spec eq {heading} {reg}", {"what": "asyncio in-flight print: heading reports the true job count", "op": i, "key": k}))
+                qs.append((f"spec eq {rows} {reg}", {"what": "asyncio in-flight print: one row per registered job", "op": i, "key": k, "rows": rows, "registered": reg}))
+    return qs
+
+
+def classes(r):  # noqa: F811
+    return ["kind:aio-print"] if r["scn"].get("kind") == "aio-print" else _mix["classes"](r)
+
+
+def nontrivial(r):  # noqa: F811
+    if r["scn"].get("kind") == "aio-print":
+        return any(ob.get("prints") for ob in r["obs"])
+    return _mix["nontrivial"](r)
+
+
+RULE += "; 10% are asyncio histories (C18 generator) in which coroutines print their scheduler between their other actions: same two clauses"
